@@ -261,7 +261,7 @@ func (c *StructCodec) Read(data []byte, ptr unsafe.Pointer, wt plenccore.WireTyp
 		d := c.fieldsByIndex[index]
 		n, err := d.codec.Read(data[offset:fl], unsafe.Pointer(uintptr(ptr)+d.offset), wt)
 		if err != nil {
-			return 0, fmt.Errorf("failed reading field %d of %s. %w", index, c.rtype.Name(), err)
+			return 0, &nestedError{where: fmt.Sprintf("failed reading field %d of %s", index, c.rtype.Name()), err: err}
 		}
 		offset += n
 	}
